@@ -300,6 +300,8 @@ class FGen:
         if op == "/":
             # division by zero is outside the claim (gfortran rejects a constant zero denominator at compile time)
             b = V(rng.choice(sc)) if rng.random() < 0.5 else C(rng.choice([1, 2, -1, 0.5, 2.5]))
+            if _constant_only(a) and _constant_only(b):
+                a = V(rng.choice(sc))          # (the denominator was just replaced: same rule as above)
         if op == "pow":
             return ["**", a, C(2)]
         if op == "if":
